@@ -114,20 +114,18 @@ class SmtLibExecutionCache(object):
 
     def get(self, name: str) -> Any:
         """Returns the last binding for 'name'"""
+        # A binding made by an enclosing let or quantifier shadows a
+        # definition of the same name (definitions are global)
+        lst = self.keys.get(name)
+        if lst:
+            return lst[-1]
         if name in self.definitions:
             (parameters, expression) = self.definitions[name]
             if len(parameters) == 0:
                 return expression
             assert isinstance(expression, FNode)
             return self._define_adapter(parameters, expression)
-        elif name in self.keys:
-            lst = self.keys[name]
-            if len(lst) > 0:
-                return lst[-1]
-            else:
-                return None
-        else:
-            return None
+        return None
 
     def update(self, value_map: Mapping[str, Union[_TypeDecl, FNode]]):
         """Binds all the symbols in 'value_map'"""
